@@ -181,18 +181,19 @@ def run_case(spec, j):
     form = forms[(spec['seed'] + spec['ds']['seed']) % len(forms)]
     yarg = y.tolist() if form == 'list' else y.astype(form)
     det['labels_as'] = form
+    sup_err = None
     try:
       sup.fit(X, yarg)
     except Exception as e:
       api.set_well_formed(False)
       if name == 'SDML_Supervised' and isinstance(e, RuntimeError):
         j.skip('C08', 'sdml-solver-failure')
-      else:
-        j.skip('fit', 'raised-%s' % type(e).__name__)
-        j.note('supervised fit raised %r %s' % (e, spec))
-      return
+        return
+      # decided below: if the base learner returns on the derived
+      # constraints, the supervised variant had no business raising
+      sup_err = e
   api.set_well_formed(False)
-  Msup = sup.get_mahalanobis_matrix()
+  Msup = sup.get_mahalanobis_matrix() if sup_err is None else None
   # ---- captured constraints only use known labels
   for key in ('pairs', 'chunks', 'triplets'):
     for labels, r in _cap[key]:
@@ -257,10 +258,22 @@ def run_case(spec, j):
           bp['n_basis'] = int(nb)
         twin = Base(**bp).fit(X[T])
     except Exception as e:
+      if sup_err is not None:
+        # both routes refuse this input: C03's question, not C08's
+        j.skip('fit', 'raised-%s' % type(sup_err).__name__)
+        j.note('supervised fit raised %r %s' % (sup_err, spec))
+        return
       j.violated('C08.twin.' + name,
                  dict(det, why='base learner raised on the derived '
                       'constraints', raised=repr(e)[:300]))
       return
+  if sup_err is not None:
+    j.violated('C08.twin.' + name,
+               dict(det, why='the supervised fit raised although the base '
+                    'learner returns on the label-derived constraints',
+                    raised=repr(sup_err)[:300]),
+               mechanism='supervised-fit-raised-' + type(sup_err).__name__)
+    return
   Mtw = twin.get_mahalanobis_matrix()
   scale = max(np.abs(Msup).max(), 1e-300)
   if len(locals().get('twins', [])) > 1:
